@@ -7,6 +7,8 @@
 (*  persistent  hashDB  (blocks stored by hash; only canonical blocks),    *)
 (*              hidx    (height index -> block), vidx (verify-hash index), *)
 (*              headRec ("bcurrent"), addMark / rmMark (intent marks),     *)
+(*              reorg (intent mark of a multi-block removal: the height of *)
+(*              the common ancestor, None when absent),                    *)
 (*              stateDisk (blocks whose post-state root is on disk),       *)
 (*              executed (tx pool's executed store)                        *)
 (*  volatile    latest (chain.latestBlock), future (futureBlocks LRU,      *)
@@ -24,6 +26,10 @@
 (* the reference for a whole call and CrashOutcomes for a crashed call.    *)
 (***************************************************************************)
 EXTENDS Integers, Sequences, FiniteSets, TLC
+
+CONSTANT ReorgMarked   \* BOOLEAN: TRUE = the repaired tree (removeFromCommonAncestor records the
+                       \* ancestor's height before its first removal and the restart finishes the
+                       \* removal); FALSE = the pinned tree (negative control for the crash clause)
 
 None == 99
 Miss == 97          \* height not in the topBlocks LRU (None in the LRU = a cached "no block")
@@ -57,7 +63,7 @@ RemoveOps(b) == << <<"MarkRm", b, 0>>, <<"DelHash", b, 0>>, <<"DelHeight", b, 0>
 
 InitState(t) ==
   [hashDB |-> {0}, hidx |-> [h \in 0..(MaxH(t) + 1) |-> IF h = 0 THEN 0 ELSE None],
-   vidx |-> {0}, headRec |-> 0, addMark |-> None, rmMark |-> None, stateDisk |-> {0},
+   vidx |-> {0}, headRec |-> 0, addMark |-> None, rmMark |-> None, reorg |-> None, stateDisk |-> {0},
    executed |-> {}, latest |-> 0, future |-> [i \in Ids0(t) |-> None], verified |-> {},
    pending |-> {}, todo |-> <<>>, res |-> "none", fork |-> <<>>, sub |-> "none",
    cache |-> [h \in 0..(MaxH(t) + 1) |-> Miss]]
@@ -71,6 +77,13 @@ Begin(t, s, b) ==
     THEN [s EXCEPT !.future[Par(t, b)] = b, !.res = "NoPre"]
   ELSE IF b \in s.hashDB THEN [s EXCEPT !.res = "Existed"]
   ELSE [s EXCEPT !.todo = << <<"AddOn", b, 0>> >>, !.res = "none"]
+
+(* removeFromCommonAncestor(a): the intent mark (repaired tree), the removals from the head's
+   height down to the ancestor's, the mark erased *)
+RemDown(t, s, a) ==
+  (IF ReorgMarked /\ Hgt(t, s.latest) > Hgt(t, a) THEN << <<"MarkReorg", Hgt(t, a), 0>> >> ELSE <<>>)
+  \o << <<"RemLoop", Hgt(t, a), Hgt(t, s.latest)>> >>
+  \o (IF ReorgMarked /\ Hgt(t, s.latest) > Hgt(t, a) THEN << <<"EraseReorg", 0, 0>> >> ELSE <<>>)
 
 (* decision structure of addBlockOnChain; cb = 1 when called from the on-chain callback for a
    future block (its result is not the result of the call) *)
@@ -87,11 +100,11 @@ AddOn(t, s, b, rest, cb) ==
     ELSE IF Qn(t, b) < Qn(t, s1.latest) THEN [s1 EXCEPT !.todo = rest, !.res = SetRes(s, cb, "LessQN"), !.sub = SetSub(s, cb, "LessQN")]
     ELSE IF Par(t, b) \notin s1.hashDB THEN [s1 EXCEPT !.todo = rest, !.res = SetRes(s, cb, "Failed"), !.sub = SetSub(s, cb, "Failed")]
     ELSE IF Qn(t, b) > Qn(t, s1.latest)
-      THEN [s1 EXCEPT !.todo = << <<"RemLoop", Par(t, b), Hgt(t, s1.latest)>>, <<"AddOn", b, cb>> >> \o rest]
+      THEN [s1 EXCEPT !.todo = RemDown(t, s1, Par(t, b)) \o << <<"AddOn", b, cb>> >> \o rest]
     ELSE LET ln == s1.hidx[Hgt(t, Par(t, b)) + 1] IN
       IF ln = None THEN [s1 EXCEPT !.todo = rest, !.res = SetRes(s, cb, "Failed"), !.sub = SetSub(s, cb, "Failed")]
       ELSE IF PvGreater(t, ln, b) THEN [s1 EXCEPT !.todo = rest, !.res = SetRes(s, cb, "LessQN"), !.sub = SetSub(s, cb, "LessQN")]
-      ELSE [s1 EXCEPT !.todo = << <<"RemLoop", Par(t, b), Hgt(t, s1.latest)>>, <<"AddOn", b, cb>> >> \o rest]
+      ELSE [s1 EXCEPT !.todo = RemDown(t, s1, Par(t, b)) \o << <<"AddOn", b, cb>> >> \o rest]
 
 RECURSIVE PathDown(_, _, _)
 PathDown(t, a, x) == IF x = a THEN <<a>> ELSE PathDown(t, a, Par(t, x)) \o <<x>>     \* a ancestor of x
@@ -115,14 +128,16 @@ BeginFork(t, s, p) ==
                      THEN PvGreater(t, lb, fb) ELSE TRUE
        IN IF Qn(t, top) = Qn(t, s.latest) /\ keep THEN [s EXCEPT !.res = "ForkNoop"]
           ELSE [s EXCEPT !.fork = p, !.res = "none", !.sub = "none",
-                         !.todo = << <<"RemLoop", ca, Hgt(t, s.latest)>>, <<"ForkAdd", Hgt(t, p[1]) + 1, 0>> >>]
+                         !.todo = RemDown(t, s, ca) \o << <<"ForkAdd", Hgt(t, p[1]) + 1, 0>> >>]
 
 (* one micro-operation *)
 Step(t, s) ==
   LET op == s.todo[1]  rest == Tail(s.todo)  b == op[2] IN
   CASE op[1] = "AddOn" -> AddOn(t, s, b, rest, op[3])
-    [] op[1] = "RemLoop" ->         \* removeFromCommonAncestor: heights from op[3] down to the ancestor's
-         IF op[3] > Hgt(t, b)
+    [] op[1] = "MarkReorg"   -> [s EXCEPT !.reorg = b, !.todo = rest]
+    [] op[1] = "EraseReorg"  -> [s EXCEPT !.reorg = None, !.todo = rest]
+    [] op[1] = "RemLoop" ->         \* removeFromCommonAncestor: heights from op[3] down to the ancestor's (op[2])
+         IF op[3] > b
            THEN LET x == s.hidx[op[3]] IN
                 [s EXCEPT !.todo = (IF x # None /\ x \in s.hashDB THEN RemoveOps(x) ELSE <<>>)
                                    \o << <<"RemLoop", b, op[3] - 1>> >> \o rest]
@@ -166,6 +181,11 @@ Step(t, s) ==
     [] op[1] = "RecRm"       -> IF s.rmMark # None
                                   THEN [s EXCEPT !.todo = RemoveOps(s.rmMark) \o << <<"EraseRm", 0, 0>> >> \o rest]
                                   ELSE [s EXCEPT !.todo = rest]
+    [] op[1] = "RecReorg"    ->     \* ensureChainConsistency: a reorganisation was under way - finish its removals
+         IF s.reorg # None
+           THEN [s EXCEPT !.todo = (IF s.hidx[s.reorg] # None THEN RemDown(t, s, s.hidx[s.reorg]) ELSE <<>>)
+                                   \o << <<"EraseReorg", 0, 0>> >> \o rest]
+           ELSE [s EXCEPT !.todo = rest]
     [] op[1] = "BuildCache"  ->     \* initBlockChain after the recovery: heights below the head, the head itself left out
          [s EXCEPT !.todo = rest,
                    !.cache = [h \in DOMAIN s.cache |-> IF h < Hgt(t, s.latest) THEN s.hidx[h] ELSE Miss]]
@@ -192,7 +212,7 @@ CrashState(s) ==
             !.pending = {}, !.res = "none", !.fork = <<>>, !.sub = "none",
             !.cache = [h \in DOMAIN s.cache |-> Miss],
             !.todo = (IF s.addMark # None THEN RemoveOps(s.addMark) \o << <<"EraseAdd", 0, 0>> >> ELSE <<>>)
-                     \o << <<"RecRm", 0, 0>>, <<"BuildCache", 0, 0>> >>]
+                     \o << <<"RecRm", 0, 0>>, <<"RecReorg", 0, 0>>, <<"BuildCache", 0, 0>> >>]
 
 Deliver(t, s, b) == RunAll(t, Begin(t, s, b))
 ForkSwitch(t, s, p) == RunAll(t, BeginFork(t, s, p))
@@ -216,7 +236,7 @@ NothingAboveHead(t, s) ==
   /\ s.hashDB \subseteq Canon(t, s)
 HeadStateDurable(t, s) == s.latest \in s.stateDisk
 HeadRecorded(t, s) == s.headRec = s.latest
-NoMarks(t, s) == s.addMark = None /\ s.rmMark = None
+NoMarks(t, s) == s.addMark = None /\ s.rmMark = None /\ s.reorg = None
 ExecutedAgrees(t, s) == s.executed = UNION {TxsOf(t, b) : b \in Canon(t, s)}
 
 (* the cache never contradicts the height index, so lookups through it return the chain *)
